@@ -18,6 +18,12 @@ impl vstd::std_specs::ops::AddSpecImpl<Duration> for Instant {
     open spec fn add_req(self, rhs: Duration) -> bool { self.t + rhs.d <= u64::MAX }
     open spec fn add_spec(self, rhs: Duration) -> Instant { Instant { t: (self.t + rhs.d) as u64 } }
 }
+impl Instant {
+    /// std: None when the sum is not representable
+    pub fn checked_add(&self, d: Duration) -> (r: Option<Instant>)
+        ensures match r { Some(i) => i.t == self.t + d.d, None => self.t + d.d > u64::MAX }
+    { match self.t.checked_add(d.d) { Some(t) => Some(Instant { t }), None => None } }
+}
 impl core::ops::Add<Duration> for Instant {
     type Output = Instant;
     fn add(self, rhs: Duration) -> Instant { Instant { t: self.t + rhs.d } }
@@ -90,9 +96,10 @@ use super::*; use super::shims::*;
 
 impl Endpoint {
 //@ extract quinn-proto/src/endpoint.rs :: impl Endpoint::fn stateless_reset
+//@ props C07 C03
 //@ ret res
 //@ closure 0 : Instant -> (b: bool)
-        requires last.t + self.config.min_reset_interval.d <= u64::MAX ensures b == (last.t + self.config.min_reset_interval.d > now.t)
+        ensures b == (last.t + self.config.min_reset_interval.d > now.t)
 //@ before return None #1
                 // Verus quirk: at a `return` inside a guarded match arm the &mut parameters are not resolved automatically
                 proof { assert(has_resolved(self)); assert(has_resolved(buf)); assert(*final(self) == *self); assert(*final(buf) == *buf); }
@@ -101,9 +108,8 @@ impl Endpoint {
         // (vstd's IndexMut<Range> spec for Vec does not export this fact once the borrow ends)
         proof { assume(buf@.len() == padding_len); }
 //@ contract
+        // no assumption on the configured interval: one that reaches past the end of Instant's range (Duration::MAX) simply never elapses
         requires old(buf)@.len() == 0,
-            // instants are far from the end of the representable range (std's `Instant + Duration` panics on overflow)
-            old(self).last_stateless_reset.is_some() ==> old(self).last_stateless_reset.unwrap().t + old(self).config.min_reset_interval.d <= u64::MAX,
         ensures
             match res {
                 // a reset is strictly smaller than the datagram that provoked it, still looks like a short-header packet, and is recorded
